@@ -659,9 +659,18 @@ Proof.
 Qed.
 Print Assumptions cmd_pop1_spec.
 
-(* LPOP k c / RPOP k c with c >= 0; the spec has no clamp *)
+(* LPOP k 0 / RPOP k 0 on a list: nothing is taken and nothing is modified *)
+Theorem cmd_pop0_spec (lft : bool) now d k c l exp :
+  parse_i64 c = Some 0 -> get_list now d k = Some (Some (l, exp)) ->
+  cmd_pop lft now d [k; c] = (d, RArr []).
+Proof.
+  intros Hp Hg. unfold cmd_pop. rewrite Hp. cbn [Z.ltb Z.compare]. rewrite Hg. reflexivity.
+Qed.
+Print Assumptions cmd_pop0_spec.
+
+(* LPOP k c / RPOP k c with c > 0; the spec has no clamp *)
 Theorem cmd_popn_spec (lft : bool) now d k c cz l exp :
-  parse_i64 c = Some cz -> 0 <= cz -> get_list now d k = Some (Some (l, exp)) ->
+  parse_i64 c = Some cz -> 0 < cz -> get_list now d k = Some (Some (l, exp)) ->
   let m := Z.to_nat cz in
   let out := if lft then firstn m l else firstn m (rev l) in
   let l' := if lft then skipn m l else firstn (length l - m) l in
@@ -676,6 +685,7 @@ Proof.
   assert (Er : r = (put_list d k l' exp, RArr (bulks out))).
   { subst r out l'. unfold cmd_pop. rewrite Hp. destruct (cz <? 0) eqn:E; [bool2prop; lia|].
     rewrite Hg. cbv zeta.
+    destruct (cz =? 0) eqn:E0; [apply Z.eqb_eq in E0; lia|].
     destruct (Z.le_gt_cases cz (Zlen l)) as [Hle|Hgt].
     - replace (Z.to_nat (Z.min cz (Zlen l))) with m by (subst m; lia). destruct lft; reflexivity.
     - replace (Z.to_nat (Z.min cz (Zlen l))) with (length l) by (unfold Zlen in *; lia).
